@@ -37,23 +37,30 @@ def ruleName : Rule → String
 
 def ofPiece (p : Piece) : Sx := .list [ofBool p.isTok, .sym (ruleName p.rule), ofBool p.fromSrc, ofStr p.text]
 
-def mkCfg (tb : Tables) (indent src : Str) : Cfg := ⟨tb, indent, splitNl src⟩
+def decVariant : Sx → Option Variant
+  | .list [g, e, l] => do pure ⟨← asBool g, ← asBool e, ← asBool l⟩
+  | _ => none
+
+def mkCfg (tb : Tables) (indent src : Str) (v : Variant) : Cfg := ⟨tb, indent, splitNl src, v⟩
 
 def handle (op : String) (args : List Sx) : Option Sx :=
   match op, args with
   -- the formatted text, the token-preserving variant, "all source-copied separators are whitespace",
   -- "all token texts are clean (no blank before a newline / at the end)"
-  | "c17.fmt", [tb, indent, src, toks] => do
-    let cfg := mkCfg (← decTables tb) (← decStr indent) (← decStr src)
-    let ps := pieces cfg (← asListOf decTok toks)
-    pure (.list [ofStr (finalize (flatten ps)), ofStr (finalizeSafe ps), ofBool (srcSepsWs ps),
+  | "c17.fmt", [v, tb, indent, src, toks] => do
+    let cfg := mkCfg (← decTables tb) (← decStr indent) (← decStr src) (← decVariant v)
+    let toks ← asListOf decTok toks
+    let ps := pieces cfg toks
+    pure (.list [ofStr (formatV cfg toks), ofStr (finalizeSafe ps), ofBool (srcSepsWs ps),
                  ofBool ((ps.filter (·.isTok)).all (fun p => tokClean p.text))])
-  | "c17.pieces", [tb, indent, src, toks] => do
-    let cfg := mkCfg (← decTables tb) (← decStr indent) (← decStr src)
+  | "c17.pieces", [v, tb, indent, src, toks] => do
+    let cfg := mkCfg (← decTables tb) (← decStr indent) (← decStr src) (← decVariant v)
     pure (ofListWith ofPiece (pieces cfg (← asListOf decTok toks)))
-  | "c17.finalize", [s] => do
+  | "c17.finalize", [e, s] => do
     let s ← decStr s
-    pure (.list [ofStr (finalize s), ofStr (rstripNl (stripTrailRef s) ++ ['\n'])])
+    let e ← asBool e
+    let b := rstripNl (stripTrailRef s)
+    pure (.list [ofStr (finalizeV e s), ofStr (b ++ finalTail e b)])
   | "c17.merges", [ops, a, b] => do
     pure (ofBool (merges (← asListOf decStr ops) (← decStr a) (← decStr b)))
   | _, _ => none
